@@ -1,0 +1,46 @@
+//go:build verif
+
+package swap
+
+import (
+	"sync/atomic"
+	"time"
+)
+
+// Verification hooks (build tag `verif`): let a harness compress the
+// wall-clock waits of the FSM (retry back-off, payment retry loop,
+// retransmission interval). Defaults keep production behaviour.
+
+var (
+	verifSkipSleepFlag   atomic.Bool
+	verifPayRetryNanos   atomic.Int64
+	verifPayIntervalNs   atomic.Int64
+	verifRetransmitNanos atomic.Int64
+)
+
+// VerifSetTiming configures the compressed timings. Zero keeps the default.
+func VerifSetTiming(skipSleep bool, payRetry, payInterval, retransmit time.Duration) {
+	verifSkipSleepFlag.Store(skipSleep)
+	verifPayRetryNanos.Store(int64(payRetry))
+	verifPayIntervalNs.Store(int64(payInterval))
+	verifRetransmitNanos.Store(int64(retransmit))
+}
+
+func verifSkipSleep() bool { return verifSkipSleepFlag.Load() }
+
+func verifPayTiming(retryTime, interval time.Duration) (time.Duration, time.Duration) {
+	if v := verifPayRetryNanos.Load(); v > 0 {
+		retryTime = time.Duration(v)
+	}
+	if v := verifPayIntervalNs.Load(); v > 0 {
+		interval = time.Duration(v)
+	}
+	return retryTime, interval
+}
+
+func verifRetryInterval(d time.Duration) time.Duration {
+	if v := verifRetransmitNanos.Load(); v > 0 {
+		return time.Duration(v)
+	}
+	return d
+}
